@@ -29,7 +29,9 @@ EXTENDS Naturals, Sequences, FiniteSets, TLC, Json, SequencesExt
 CONSTANTS T,      \* strength of the covering set (2 or 3)
           Seed,   \* selects the permutation of the vectors
           Extra,  \* additional vectors (first in the permutation)
-          Must    \* option sets (indices) covered in full, e.g. {{1, 2, 8}}
+          Must,   \* option sets (indices) covered in full, e.g. {{1, 2, 8}}
+          Groups  \* the option sets to cover (written by the check: every T-subset + Must; a constant VALUE,
+                  \* because TLC re-evaluates a defined operator at every use)
 
 N   == 8
 D   == <<2, 4, 2, 2, 2, 2, 5, 4>>                  \* domain sizes
@@ -40,21 +42,27 @@ Digit(c, i) == (c \div W[i]) % D[i]
 \* default: eager, no filter, no reports, log-level 3 (digit 2), unlimited alarms
 DefaultCode == 2 * W[7]
 
-GSeq == SetToSeq({S \in SUBSET (1 .. N) : Cardinality(S) = T} \cup Must)
-NG   == Len(GSeq)
+ASSUME Groups = {S \in SUBSET (1 .. N) : Cardinality(S) = T} \cup Must
 
+Pow2 == <<1, 2, 4, 8, 16, 32, 64, 128>>
 RECURSIVE Sub(_, _, _)
 \* the code c with every digit outside S set to 0
 Sub(c, S, i) == IF i > N THEN 0 ELSE (IF i \in S THEN Digit(c, i) * W[i] ELSE 0) + Sub(c, S, i + 1)
+RECURSIVE GCode(_, _)
+\* an option set as a bit mask
+GCode(S, i) == IF i > N THEN 0 ELSE (IF i \in S THEN Pow2[i] ELSE 0) + GCode(S, i + 1)
+GSet(m) == {i \in 1 .. N : (m \div Pow2[i]) % 2 = 1}
 
-TupleId(c, g) == g * NV + Sub(c, GSeq[g], 1)
-Tuples(c)     == {TupleId(c, g) : g \in 1 .. NG}
+\* a value combination = (option set, values) = mask * NV + sub-code
+TupleId(c, S) == GCode(S, 1) * NV + Sub(c, S, 1)
+Tuples(c)     == {TupleId(c, S) : S \in Groups}
 
 RECURSIVE Combos(_, _)
-\* all sub-codes over the option set S (as a sequence of indices)
-Combos(idx, k) == IF k > Len(idx) THEN {0}
-                  ELSE {d * W[idx[k]] + r : d \in 0 .. (D[idx[k]] - 1), r \in Combos(idx, k + 1)}
-AllTuples == UNION {{g * NV + s : s \in Combos(SetToSeq(GSeq[g]), 1)} : g \in 1 .. NG}
+\* all sub-codes over the options i .. N that belong to S
+Combos(S, i) == IF i > N THEN {0}
+                ELSE IF i \in S THEN {d * W[i] + r : d \in 0 .. (D[i] - 1), r \in Combos(S, i + 1)}
+                ELSE Combos(S, i + 1)
+AllTuples == UNION {{GCode(S, 1) * NV + s : s \in Combos(S, 1)} : S \in Groups}
 
 \* a Seed-dependent permutation of the vectors (multiplication by a unit modulo the prime 2579 > 2560)
 Mult    == LET m == ((2 * Seed + 1) * 7919) % 2579 IN IF m = 0 THEN 1 ELSE m
@@ -71,24 +79,21 @@ Init == /\ chosen = {DefaultCode}
 Window(s) == {c \in 0 .. (NV - 1) : (Rank(c) + 97 * s) % 13 = 0}
 Gain(c, unc) == Cardinality(Tuples(c) \cap unc)
 
-RECURSIVE BestOf(_, _, _, _)
-BestOf(cs, i, acc, unc) == IF i > Len(cs) THEN acc
-                           ELSE LET k == Gain(cs[i], unc) * 4096 + (2579 - Rank(cs[i]))
-                                IN BestOf(cs, i + 1, IF k > acc THEN k ELSE acc, unc)
-
 \* the default vector overridden with the uncovered combination t
-FromTuple(t) == LET g == t \div NV
+FromTuple(t) == LET S == GSet(t \div NV)
                     s == t % NV
-                IN DefaultCode - Sub(DefaultCode, GSeq[g], 1) + s
+                IN DefaultCode - Sub(DefaultCode, S, 1) + s
 
+\* gain first, permutation rank second (Rank is injective, so a key identifies its vector)
 Next == /\ uncovered # {}
-        /\ LET cs   == SetToSeq(Window(step))
-               best == BestOf(cs, 1, 0, uncovered)
+        /\ LET keys == {Gain(c, uncovered) * 4096 + (2579 - Rank(c)) : c \in Window(step)}
+               best == CHOOSE k \in keys : \A j \in keys : j <= k
                v    == IF best \div 4096 > 0
                        THEN CHOOSE c \in Window(step) : Rank(c) = 2579 - (best % 4096)
                        ELSE FromTuple(CHOOSE t \in uncovered : \A u \in uncovered : t <= u)
+               tv   == Tuples(v)
            IN /\ chosen' = chosen \cup {v}
-              /\ uncovered' = uncovered \ Tuples(v)
+              /\ uncovered' = uncovered \ tv
         /\ step' = step + 1
 
 Spec == Init /\ [][Next]_vars
